@@ -143,6 +143,21 @@ CLAIMS["C04"] = dict(
     design_ref="DESIGN.md §3 C04",
 )
 
+CLAIMS["C13"] = dict(
+    technique="typestate / linearity / pairing rules over resolved HIR (callee identity and generic arguments); sibling agreement of the clamped and unclamped modules",
+    category="other",
+    text=("Structural necessary conditions for every operation sequence: each consuming guard method and Drop read `self.current` only through "
+          "take(), and the conversion mapped over the taken reference is instantiated exactly as target <- type-currently-in-the-buffer "
+          "(then_into_*: C <- T; restore/drop: U <- T; kind changes convert nothing); the guard made in drop and the per-element guards of the "
+          "slice impls are the direct argument of mem::forget; the single-value impl clones, reinterprets via from_array_mut(into_array_mut(_)) "
+          "and stores clone.into_color() (resp. into_color_unclamped()) and nothing else; the slice impl converts each element then casts the "
+          "slice once; the two modules have equal callee sequences modulo the clamped<->unclamped swap; Vec/Box impls map in place with the "
+          "conversion of the same trait, and the in-place maps read/write the same place once under ManuallyDrop without any allocating API "
+          "(same address, length, capacity). Borrow exclusivity while a guard lives is enforced by the type signature (&'a mut). "
+          "Does not decide value equality beyond 'the stored value is the out-of-place conversion of the original'."),
+    design_ref="DESIGN.md §3 C13",
+)
+
 NOT_YET = "check under construction (see DESIGN.md §7 build order); will be claimed when its rule is armed"
 NA = {}
 
